@@ -83,9 +83,63 @@ def permute(t, draw):
     return t
 
 
+def flat_children(t):
+    out = []
+    for c in t[1:]:
+        if c[0] == t[0]:
+            out.extend(flat_children(c))
+        else:
+            out.append(c)
+    return out
+
+
+def cap_width(t, cap=5):
+    """Matching is exponential in the number of children of an associative-commutative node (after
+    flattening): keep at most `cap` of them, so that a case costs milliseconds, not minutes."""
+    if t[0] in ("sum", "prod"):
+        ch = [cap_width(c, cap) for c in flat_children(t)]
+        ch = ch[:cap]
+        return ch[0] if len(ch) == 1 else [t[0]] + ch
+    return T.rebuild(t, [cap_width(c, cap) for c in T.children(t)])
+
+
+def ac_weight(t):
+    """Rough count of the ways the unifier can pair up the children of the AC nodes of t."""
+    import math
+    w = 1
+    if t[0] in ("sum", "prod"):
+        w = math.factorial(len(flat_children(t)))
+        for c in flat_children(t):
+            w *= ac_weight(c)
+        return w
+    for c in T.children(t):
+        w *= ac_weight(c)
+    return w
+
+
+def cap_weight(t, limit=48):
+    """Narrow the widest AC node until the weight is at most `limit` (the matcher's cost grows with it)."""
+    t = cap_width(t)
+    while ac_weight(t) > limit:
+        widest = [0, None]
+
+        def find(n):
+            if n[0] in ("sum", "prod") and len(n) - 1 > widest[0]:
+                widest[0], widest[1] = len(n) - 1, n
+            for c in T.children(n):
+                find(c)
+        find(t)
+        n = widest[1]
+        if n is None or len(n) <= 3:
+            # only binary nodes left: replace the last child of the root-most one by a leaf
+            break
+        del n[-1]
+    return t
+
+
 @st.composite
 def constructed(draw):
-    tpl = draw(st.integers(1, 3).flatmap(template))
+    tpl = cap_weight(draw(st.integers(1, 3).flatmap(template)))
     tvars = sorted(T.variables(tpl))
     tfuncs = sorted(T.variables(tpl, include_functions=True) - set(tvars))
     free = [v for v in tvars if v in FREE_POOL and draw(st.integers(0, 9)) < 8]
@@ -132,8 +186,8 @@ def constructed(draw):
 
 @st.composite
 def random_pair(draw):
-    tpl = draw(st.integers(0, 2).flatmap(template))
-    tgt = draw(st.one_of(st.integers(0, 2).flatmap(template), small_target()))
+    tpl = cap_weight(draw(st.integers(0, 2).flatmap(template)))
+    tgt = cap_weight(draw(st.one_of(st.integers(0, 2).flatmap(template), small_target())))
     case = {"kind": "random", "template": tpl, "target": tgt, "permuted": False}
     if draw(st.booleans()):
         names = sorted(T.variables(tpl, include_functions=True))
